@@ -3,10 +3,11 @@ from framework.registry import target, job, PROPS, COMMON_ASSUME
 # ---------------------------------------------------------------------------
 # C14 run-time configuration is equivalent to compile-time configuration
 # ---------------------------------------------------------------------------
-# Binary 'c14' (8 translation units, each 15-25 s plain / < 60 s asan):
+# Binary 'c14' (9 translation units, each 15-25 s plain / < 60 s asan):
 #   c14_config.cpp            main, dispatch, documentation pass (docs/components/*.rst)
 #   c14_eq_<coarsening>.cpp   9 amg<B, C, R> cells each against the run-time wrappers (36 cells)
 #   c14_eq_solvers.cpp        9 solvers, runtime::preconditioner classes, make_solver compositions
+#   c14_eq_block.cpp          block-valued backend (static_matrix<2,2>): 4 cells, the as_scalar dispatch, unsupported ruge_stuben
 #   c14_tables.cpp            parameter table over every serial params struct
 #   c14_rt_misc.cpp           enumeration strings, unknown keys through the run-time classes
 # Binary 'c14_mpi': parameter table + enumerations of the MPI structs (mpicxx; only params objects are
@@ -24,7 +25,7 @@ from framework.registry import target, job, PROPS, COMMON_ASSUME
 #  * documentation coverage (docs pass) is an observation, never a violation.
 C14_SRC = ['harness/c14_config.cpp', 'harness/c14_eq_aggregation.cpp', 'harness/c14_eq_smoothed_aggregation.cpp',
            'harness/c14_eq_smoothed_aggr_emin.cpp', 'harness/c14_eq_ruge_stuben.cpp', 'harness/c14_eq_solvers.cpp',
-           'harness/c14_tables.cpp', 'harness/c14_rt_misc.cpp']
+           'harness/c14_eq_block.cpp', 'harness/c14_tables.cpp', 'harness/c14_rt_misc.cpp']
 target('c14', C14_SRC)
 target('c14_mpi', ['harness/c14_mpi.cpp'])
 
@@ -100,10 +101,11 @@ PROPS['C14'] = dict(
     rule=('equiv_amg: case idx -> cell (coarsening, relaxation) = idx mod 36, seeded M-matrix (5/7/9-point diffusion, upwind convection-diffusion, 80-580 unknowns), '
           'every params field of amg/coarsening/relaxation drawn at random (non-default); non-trivial = hierarchy has >= 2 levels and the extracted operator is finite and non-zero. '
           'equiv_solver / equiv_precond / equiv_make_solver: same with random solver parameters; non-trivial = at least one iteration moved x. '
+          'equiv_block: the same on A (x) C (C SPD 2x2) through builtin<static_matrix<2,2>>, 4 cells + the as_scalar dispatch (near null-space vectors given) + unsupported ruge_stuben. '
           'param_table: one case per (params struct, repetition); each imported field counts as one non-trivial sub-case. '
           'enum_strings: one case per enumeration; each accepted documented name counts. unknown_runtime: one case per random run-time tree; each injected level counts. '
           'distinct = distinct (sub-check, descriptor) hash.'),
-    exhaustive_note=('all 36 (coarsening, relaxation) cells, all 9 solvers, all 4 preconditioner classes; every member of every params struct in the table '
+    exhaustive_note=('all 36 (coarsening, relaxation) cells, all 9 solvers, all 4 preconditioner classes (scalar backend); every member of every params struct in the table '
                      '(45 serial + 11 MPI structs); every documented enumeration name of the 8 enumeration types; every nesting level for unknown keys; '
                      '44 compile probes'),
     min_nontrivial=dict(quick=800, thorough=3000),
@@ -117,5 +119,5 @@ PROPS['C14'] = dict(
     level_text=('Every cell of the run-time dispatch tables is executed against its compile-time twin on seeded systems with random non-default parameters and must agree bitwise; '
                 'every member of every params struct is set through a tree, read back, exported, re-imported and isolated; unknown keys are injected at every nesting level; '
                 'invalid enumeration strings must throw. Held means no observed execution deviated; it is not a proof for unobserved parameter values.'),
-    level_note=('back ends other than builtin<double>, block value types and the GPU/VexCL params structs are not covered; MPI structs are checked at the params level only '
+    level_note=('back ends other than builtin (double and 2x2 blocks), complex values and the GPU/VexCL params structs are not covered; MPI structs are checked at the params level only '
                 '(run-time vs compile-time MPI solves belong to C12); pointer parameters are import-only'))
